@@ -116,6 +116,19 @@ def search(tier='quick'):
                 bad('seeded reshuffle behind prefetch n=%d seed=%d' % (n, seed), 'prefetch-determinism', None, 'same epochs')
             if fails:
                 return cases, fails
+    # C13 "copy() of a freshly built pipeline": a pipeline that contains the SAME reshuffle object twice
+    # (r.concatenate(r), r.tile(2)).  Listed as known finding F25 (failures carry its id).
+    for n in (3, 6):
+        for seed in range(3):
+            for name, build in (('r.concatenate(r)', lambda: (lambda r: r.concatenate(r))(lazy_dataset.new(list(range(n))).shuffle(True, rng=np.random.RandomState(seed)))),
+                                ('r.tile(2)', lambda: lazy_dataset.new(list(range(n))).shuffle(True, rng=np.random.RandomState(seed)).tile(2))):
+                cases += 1
+                twin = [list(build()) for _ in range(1)][0]
+                ea = (lambda p: [list(p) for _ in range(2)])(build())
+                ec = (lambda p: [list(p) for _ in range(2)])(build().copy())
+                if ec != ea:
+                    fails.append({'scenario': 'copy() of a freshly built %s, n=%d seed=%d' % (name, n, seed), 'finding': 'F25',
+                                  'mismatches': [{'clause': 'copy-of-a-pipeline-sharing-one-reshuffle-object', 'observed': repr(ec), 'expected': repr(ea)}]})
     return cases, fails
 
 
